@@ -159,7 +159,7 @@ func Load(cfg LoadConfig) (*Program, error) {
 		MaxSteps:      4_000_000,
 		MaxDecisions:  4000,
 		MaxConcretize: 4096,
-		MaxAlloc:      1 << 16,
+		MaxAlloc:      1 << 18,
 		MaxSymIndex:   512,
 		AllocEnumMax:  48,
 		MaxPreempt:    3,
